@@ -262,8 +262,17 @@ def rule_pipeline(ctx: Ctx):
     ctx.ob("R-C03-1", f"{q}/passes-through-filter", ok and n > 0,
            f"on all {n} return path(s) the list goes through filter_citations and afterwards only through the order-preserving ambiguity filter"
            if ok else why, node=gc, mod=fm)
-    # R-C03-6: span-extending scans stop at special tokens
+    # ... which is order-preserving only if it is what its name says: a filter (comprehension over its parameter, or an append-only loop that
+    # keeps or skips each element in turn) -- not something that sets elements aside and adds them back later
+    from ..core import filter_semantics
     hm = repo.mod("helpers")
+    dr = repo.func("helpers.disambiguate_reporters")
+    if dr is not None:
+        shape = filter_semantics(dr, ["isinstance({v}, ResourceCitation)", "{v}.edition_guess"])
+        ctx.ob("R-C03-1", "helpers.disambiguate_reporters/order-preserving-filter", shape is not None,
+               "the step applied after filter_citations returns a sub-sequence of its argument in the argument's order (a filtering comprehension / "
+               "append-only filter loop over the parameter)", node=dr, mod=hm)
+    # R-C03-6: span-extending scans stop at special tokens
     epc = repo.need_func("helpers.extract_pin_cite")
     calls = [n for n in walk_local(epc) if isinstance(n, ast.Call) and dotted(n.func) == "match_on_tokens"]
     okso = len(calls) == 1 and any(k.arg == "strings_only" and isinstance(k.value, ast.Constant) and k.value.value is True for k in calls[0].keywords)
